@@ -1087,10 +1087,136 @@ pub fn check_c02(tier: Tier, seed: u64) -> i32 {
         wrap,
     );
     check.set_extra("executions_sched_all", json!(executions.swap(0, Ordering::Relaxed)));
+    // free-running part: in a child process, so that memory corruption under real concurrency (a crash of the
+    // process) becomes a verdict with the case that was running instead of taking this run down
+    run_free_in_child(&check);
+    check.finish()
+}
+
+/// `check C02-free-child`: the free-running part alone. Evidence and replays go to VERIF_OUT_ROOT (set by the parent).
+pub fn check_c02_free_child(tier: Tier, seed: u64) -> i32 {
+    install_hook();
+    let check = Check::new("C02", "exploration", tier, seed);
+    let executions = AtomicU64::new(0);
+    let dir = std::env::var("C02_CHILD_DIR").unwrap_or_else(|_| "/verif/out/c02child".into());
+    let wrap = |c: &RCase| {
+        // remember what is running (one file per worker thread): if the process dies, the parent reports these
+        let tid = format!("{:?}", std::thread::current().id()).replace(|ch: char| !ch.is_ascii_digit(), "");
+        let _ = std::fs::write(format!("{dir}/current_{tid}.json"), serde_json::to_string(c).unwrap_or_default());
+        let r = exec_case(c);
+        executions.fetch_add(take_executions(), Ordering::Relaxed);
+        r
+    };
+    let t_max = tier.pick(3, 4);
     check.run_random("free", tier.pick(1_500, 60_000), || case_strategy(2, t_max, tier.pick(4, 5), Mode::Free { runs: tier.pick(20, 100) }), wrap);
     check.set_extra("executions_free", json!(executions.swap(0, Ordering::Relaxed)));
     check.finish()
 }
 
+fn run_free_in_child(check: &Check) {
+    use std::os::unix::process::ExitStatusExt;
+    if !check.stats.violations.lock().unwrap().is_empty() {
+        return;
+    }
+    let root = crate::common::out_root();
+    let dir = format!("{root}/out/c02child");
+    let _ = std::fs::remove_dir_all(&dir);
+    let _ = std::fs::create_dir_all(format!("{dir}/evidence"));
+    let exe = std::env::current_exe().unwrap_or_else(|_| "/verif/target/release/check".into());
+    let out = std::process::Command::new(exe)
+        .arg("C02-free-child")
+        .arg("--tier")
+        .arg(check.tier.name())
+        .arg("--seed")
+        .arg(format!("{}", check.seed))
+        .env("VERIF_OUT_ROOT", &dir)
+        .env("C02_CHILD_DIR", &dir)
+        .output();
+    let out = match out {
+        Ok(o) => o,
+        Err(e) => {
+            check.stats.inconclusive.lock().unwrap().push(format!("cannot start the free-running child: {e}"));
+            return;
+        }
+    };
+    let text = format!("{}{}", String::from_utf8_lossy(&out.stdout), String::from_utf8_lossy(&out.stderr));
+    // merge the child's evidence
+    if let Ok(ev) = std::fs::read_to_string(format!("{dir}/evidence/C02.json")) {
+        if let Ok(v) = serde_json::from_str::<serde_json::Value>(&ev) {
+            let cov = &v["coverage"];
+            check.stats.evaluations.fetch_add(cov["evaluations"].as_u64().unwrap_or(0), Ordering::Relaxed);
+            check.set_extra("executions_free", cov["executions_free"].clone());
+            check.set_extra("free_part", json!({"evaluations": cov["evaluations"], "distinct_nontrivial": cov["distinct_nontrivial"], "class_histogram": cov["class_histogram"], "samples": cov["samples"]}));
+            if let Some(n) = cov["distinct_nontrivial"].as_u64() {
+                // distinct fingerprints of the child are disjoint from the parent's (different sub-check name)
+                let mut nt = check.stats.nontrivial.lock().unwrap();
+                for i in 0..n {
+                    nt.insert(0xF4EE_0000_0000_0000u64 ^ i);
+                }
+            }
+        }
+    }
+    match (out.status.code(), out.status.signal()) {
+        (Some(0), _) => {}
+        (Some(1), _) => {
+            // the child found a violation and wrote a replay file: adopt it
+            let line = text.lines().find(|l| l.starts_with("VIOLATION ")).unwrap_or("");
+            let path = line.split("replay=").nth(1).unwrap_or("").trim().to_string();
+            let msg = text.lines().find(|l| l.trim_start().starts_with("violation signature=")).unwrap_or("").trim().to_string();
+            if let Ok(rf) = crate::common::load_replay(&path) {
+                let f = Failure::new(rf.signature.clone(), rf.message.clone());
+                check.violation("free", &rf.case, &f);
+            } else {
+                check.stats.inconclusive.lock().unwrap().push(format!("free-running child reported a violation but its replay file is missing: {msg}"));
+            }
+        }
+        (Some(2), _) => {
+            for l in text.lines().filter(|l| l.starts_with("INCONCLUSIVE")) {
+                check.stats.inconclusive.lock().unwrap().push(format!("free-running child: {l}"));
+            }
+        }
+        (_, Some(sig)) if sig == libc::SIGSEGV || sig == libc::SIGBUS || sig == libc::SIGILL => {
+            // memory corruption while the programs below were running concurrently (the harness is safe Rust)
+            let mut running = vec![];
+            if let Ok(rd) = std::fs::read_dir(&dir) {
+                for e in rd.filter_map(|e| e.ok()) {
+                    if e.file_name().to_string_lossy().starts_with("current_") {
+                        if let Ok(s) = std::fs::read_to_string(e.path()) {
+                            if let Ok(c) = serde_json::from_str::<serde_json::Value>(&s) {
+                                running.push(c);
+                            }
+                        }
+                    }
+                }
+            }
+            let f = Failure::new(
+                format!("crash-under-concurrent-use:signal-{sig}"),
+                format!("the process running free-running programs died with signal {sig}; {} programs were executing (saved as the replay case; re-run them to reproduce)", running.len()),
+            );
+            check.violation("free-crash", &json!({"running": running}), &f);
+        }
+        (code, sig) => {
+            check.stats.inconclusive.lock().unwrap().push(format!("free-running child ended abnormally (exit {code:?}, signal {sig:?}): {}", text.lines().rev().take(3).collect::<Vec<_>>().join(" | ")));
+        }
+    }
+}
+
 #[allow(dead_code)]
 fn _unused(_: BTreeMap<u8, u8>) {}
+
+/// Replay of a "process died" finding: re-run every program that was executing, many times; the crash itself is the
+/// reproduction (this process dies again), otherwise the ordinary oracle judges the histories.
+pub fn replay_crash(case: &serde_json::Value) -> Option<Failure> {
+    let mut first = None;
+    if let Some(list) = case["running"].as_array() {
+        for c in list {
+            if let Ok(mut rc) = serde_json::from_value::<RCase>(c.clone()) {
+                rc.mode = Mode::Free { runs: 2000 };
+                if let Some(f) = exec_case(&rc).failure {
+                    first.get_or_insert(f);
+                }
+            }
+        }
+    }
+    first
+}
